@@ -27,7 +27,7 @@ PROP = dict(
                            "mpt_msgvalfmt_typeid": 10000, "monitor:msgvalfmt-id-compared": 400, "monitor:msgvalfmt-round-trip": 400,
                            "refused:msgvalfmt": 8000, "mpt_msgvalfmt_code": 400, "mpt_type_int": 700, "mpt_type_uint": 700,
                            "monitor:type_int-compared": 300, "refused:type_int": 1000}),
-              dict(name="c06_cxx", src=["c06_cxx.cpp"], libs=["mpt++", "mptio", "mptplot", "mptcore"], batch=1,
+              dict(name="c06_cxx", memcheck=100, src=["c06_cxx.cpp"], libs=["mpt++", "mptio", "mptplot", "mptcore"], batch=1,
                    floors={"type_traits::add": 50000, "type_traits::add_basic": 500, "type_traits::add_interface": 500,
                            "type_traits::add_metatype": 500, "type_properties::id": 3000, "type_traits::get(id)": 100000,
                            "monitor:template-type-compared": 3000, "monitor:builtin-compared": 5000, "monitor:traits-compared": 100000,
